@@ -1148,6 +1148,7 @@ package tally
 //@   ensures @tags_are_a_sanitized_copy result.tags != nil && fresh(result.tags) && (forall k2 string :: k2 in result.tags ==> (exists k string :: k in opts.Tags && k2 == pcall(Sanitizer.Key, result.sanitizer, k) && result.tags[k2] == pcall(Sanitizer.Value, result.sanitizer, opts.Tags[k]))) && (forall k string :: k in opts.Tags ==> pcall(Sanitizer.Key, result.sanitizer, k) in result.tags)
 //@   ensures @registered result.registry != nil && result.registry.root == result && len(result.registry.subscopes) >= 1
 //@   ensures @well_formed scopeWF(result)
+//@   ensures @root_invariant_established rootWF(result)
 //@   ensures @reporting_goroutine_tracked interval > 0 ==> (exists p int :: old(len(calls)) <= p && p + 1 < len(calls) && calls[p] == evn("wg.Add:.wg", result) && calls[p+1] == evn("go:github.com/uber-go/tally/v4.newRootScope$1"))
 //@   requires opts.DefaultBuckets == nil || is(opts.DefaultBuckets, ValueBuckets) || is(opts.DefaultBuckets, DurationBuckets)
 
